@@ -298,8 +298,17 @@ def _playback(unit, h, o, ws, logdir, tier):
                            ["--", "kani_concrete_playback"], cwd=ws, timeout=900,
                            log=os.path.join(logdir, h.name + ".playback-run.log"))
         failed_tests = re.findall(r"test (\S*kani_concrete_playback_\w+) \.\.\. FAILED", out2)
-        confirmed = bool(failed_tests)
         panics = re.findall(r"panicked at ([^\n]*)\n([^\n]*)", out2)
+        # a native failure counts only if it is the code's / the harness's own panic -- not the playback driver
+        # complaining about left-over or missing values (the native run took a different path, e.g. because the
+        # harness relies on kani::stub, which does not exist natively)
+        genuine = [p for p in panics if "concrete_playback.rs" not in p[0]]
+        stubbed = _uses_stub(unit, h)
+        confirmed = bool(failed_tests) and bool(genuine) and not stubbed
+        replay["native_replay_meaningful"] = not stubbed
+        if stubbed:
+            replay["note"] = ("the harness injects its environment through kani::stub (not available natively): the concrete values "
+                              "below are Kani's counterexample; to reproduce, re-run the harness (`./check <ID> --replay <this file>` does)")
         replay["tests"] = [{"name": n, "code": c} for n, c in tests]
         replay["native_run"] = {"failed_tests": failed_tests,
                                 "panics": ["%s %s" % p for p in panics[:6]]}
@@ -315,10 +324,31 @@ def _playback(unit, h, o, ws, logdir, tier):
     o.replay_confirmed = confirmed if tests else None
 
 
+def _uses_stub(unit, h):
+    for (_t, hfile, m) in unit.attachments:
+        if m == h.mod:
+            src = open(hfile).read()
+            i = src.find("fn %s(" % h.name)
+            return i >= 0 and "#[kani::stub" in src[max(0, i - 400):i]
+    return False
+
+
 def replay_file(unit, path):
     """Re-run a stored Kani counterexample against the current /repo.  Returns True if it
     still fails (violation reproduces)."""
     rp = json.load(open(path))
+    if rp.get("native_replay_meaningful") is False:
+        # stub-dependent harness: replay = verify that one harness again on the current tree
+        hs = [h for h in unit.harnesses if h.name == rp["harness"]]
+        if not hs:
+            raise Undecided("harness %s no longer exists" % rp["harness"])
+        os.environ["VERIF_ONLY"] = rp["harness"]
+        obls = run_unit(unit, rp.get("tier", "quick"), want_props=None, logdir=os.path.join(scratch_dir("woodpile-replay-"), "logs"))
+        o = [o for o in obls if o.name.endswith(":" + rp["harness"])][0]
+        print("  %s %s %s" % (o.status, o.name, o.detail[:300]))
+        if o.status == UNDECIDED:
+            raise Undecided(o.detail)
+        return o.status == VIOLATED
     if not rp.get("tests"):
         raise Undecided("replay file carries no concrete input; obligation: %s" % rp.get("obligation"))
     extra = {rp.get("mod", ""): "\n".join(t["code"] for t in rp["tests"])}
@@ -329,6 +359,12 @@ def replay_file(unit, path):
     passed = re.findall(r"test (\S*kani_concrete_playback_\w+) \.\.\. ok", out)
     if not failed and not passed:
         raise Undecided("playback did not run: " + out[-1500:])
+    panics = re.findall(r"panicked at ([^\n]*)\n([^\n]*)", out)
+    if failed and not [p for p in panics if "concrete_playback.rs" not in p[0]]:
+        # only the playback driver complained (values left over / missing): the stored input no longer drives the
+        # harness down the same path on this tree -- it does not reproduce
+        print("  stored values no longer match the harness's path on this tree (playback driver: left-over / missing values)")
+        return False
     for l in out.split("\n"):
         if "panicked at" in l or "kani_concrete_playback" in l:
             print("  " + l)
